@@ -71,6 +71,7 @@ func fullRange(iv *Sym, coll func(*Sym) bool) bool {
 
 func checkC05(c *Ctx) {
 	p := c.P
+	checkNoKnownNilErrorReturn(c, "R7", func(f *ssa.Function) bool { return (inPkg(p, f, "") || inSeatManagerPkg(p, f)) && f.Parent() == nil }, 20)
 	lc := p.lifecycle()
 	smT := p.singleImpl("/seat_manager", "SeatManager")
 	if lc.openFn == nil || lc.continueFn == nil || smT == nil {
